@@ -173,6 +173,29 @@ CHECKS.update({
    design_ref='DESIGN.md 4 (C23)'),
 })
 
+CHECKS.update({
+ 'C13': dict(
+   category='exploration', engine='symx', note=ENUM_NOTE,
+   technique='exhaustive enumeration (symx selectors) of replacement decisions over whole real loads with recording processors and user classes; no solver verdict',
+   text=("Path-exhaustive: for one-file, two-file and import-cycle models every subset of Leaf / Item processor calls returning a replacement is one real load (up to 256 per case); "
+         "the processor call log per model file must equal the reference post-order (own rule, then abstract rule, Model last, once each), every user __init__ of the load must "
+         "precede the first processor, no processor may see an unresolved reference, and replacements must land in the containing attribute."),
+   design_ref='DESIGN.md 4 (C13)'),
+ 'C14': dict(
+   category='fault_enumeration', engine='symx', note=ENUM_NOTE,
+   technique='exhaustive fault enumeration (symx selectors): every scope-provider / object-processor / model-processor call raises once, plus self-failing loads, over user-class variants; no solver verdict',
+   text=("Every callback call of one-file, two-file and import-cycle loads (user classes plain / __slots__ / own __setattr__+__getattribute__) is a fault point = one real load, "
+         "plus syntax-error and unknown-reference loads in main and imported files: user objects are initialised once with exactly the rule attributes + parent, references resolved, "
+         "before any processor; after every load the class dictionaries are identical to the snapshot and _tx_obj_attrs is empty."),
+   design_ref='DESIGN.md 4 (C14/C15)'),
+ 'C15': dict(
+   category='fault_enumeration', engine='symx', note=ENUM_NOTE,
+   technique='exhaustive fault enumeration (symx selectors) over whole real loads with and without a global repository; per-path GC observation (weak references), class snapshot comparison and reload comparison; no solver verdict',
+   text=("Every callback call raises once (two exception flavours in the thorough tier), plus self-failing loads, single/multi-file, global repository on and off: after each failing "
+         "load every object seen is garbage (weakrefs dead after gc.collect), user classes are uninstrumented, and a following load with the same metamodel equals a fresh-metamodel load."),
+   design_ref='DESIGN.md 4 (C14/C15)'),
+})
+
 NA = {
  'C16': "history quantifier over whole-program API calls; no data dimension to make symbolic — only enumeration of concrete call sequences would remain (DESIGN.md 5)",
  'C17': "decided by file-system I/O, glob, abspath and repository objects handed between nested real loads; only enumeration of import graphs would remain (DESIGN.md 5)",
